@@ -359,7 +359,7 @@ Section Agree.
   Variable LA : stype -> bool -> option text -> option text -> bool.
   Hypothesis Hwf : wf_univ U = true.
   Hypothesis Hres : resolves S U.
-  (** the leaf contents the document class admits are those on which the two validators agree *)
+  (** the leaf contents the document class allows are those on which the two validators agree *)
   Hypothesis H_LA : forall st nil d txt,
     In (DLeaf st) (tys_of U) -> wf_stype st = true -> LA st nil d txt = true ->
     st_elem_ok pat olex st d txt = is_ok (soft_leaf ord st nil txt).
@@ -675,6 +675,82 @@ Section Agree.
     - rewrite HA. unfold att_name in Hocc. rewrite Hocc. cbn [andb].
       destruct (forallb _ E && forallb occA AF) eqn:EO; rewrite andb_comm in EO; rewrite EO; reflexivity.
     - cbn [andb]. destruct (soft_atts ord F0 atts _) as [fr| |]; [discriminate HA|reflexivity|reflexivity].
+  Qed.
+
+
+  (* ---------------------------------------------------------------- the theorem *)
+  Lemma tys_of_arr_el aq iname el : In (DArr aq iname el) (tys_of U) -> In el (tys_of U).
+  Proof.
+    unfold tys_of. intros H. apply in_flat_map in H. destruct H as (cl & Hcl & H). apply in_flat_map in H. destruct H as (f & Hf & H).
+    apply in_flat_map. exists cl. split; [exact Hcl|]. apply in_flat_map. exists f. split; [exact Hf|].
+    clear -H. revert H. generalize (fl_ty f). intros t. induction t as [st|c|aq' iname' e IH]; cbn [sub_tys]; intros H.
+    - destruct H as [H|[]]. discriminate.
+    - destruct H as [H|[]]. discriminate.
+    - destruct H as [H|H].
+      + injection H as -> -> ->. right. destruct el; left; reflexivity.
+      + right. apply IH. exact H.
+  Qed.
+
+  Theorem verdicts_agree : forall n t nillable dflt e,
+    ty_known U t -> ddoc U LA n t nillable dflt e = true ->
+    forall m, (n + length U < m)%nat ->
+      valid_elem pat olex m S (type_qn U t) nillable dflt e = is_ok (soft U ord n t nillable e).
+  Proof.
+    induction n as [|k IHk]; intros t nillable dflt e Hty Hdoc m Hm; [discriminate Hdoc|].
+    destruct m as [|m']; [lia|]. assert (Hm' : (k + length U < m')%nat) by lia.
+    destruct e as [ns name atts txt kids|]; [|discriminate Hdoc].
+    cbn [ddoc] in Hdoc. apply andb_prop in Hdoc. destruct Hdoc as [Hx Hdoc].
+    destruct (is_nil_att atts) eqn:Enil.
+    - (* nilled *)
+      apply andb_prop in Hdoc. destruct Hdoc as [Hdoc Hnok]. apply andb_prop in Hdoc. destruct Hdoc as [Hdoc Hpl].
+      apply andb_prop in Hdoc. destruct Hdoc as [Htxt Hk]. destruct kids; [|discriminate Hk].
+      assert (Hpl' : plain_atts atts = []) by (destruct (plain_atts atts); [reflexivity|discriminate Hpl]).
+      destruct (agree_nil m' k t nillable dflt ns name atts txt Hty Hm' Hx Enil Htxt Hpl' Hnok) as [A B]. rewrite A, B. reflexivity.
+    - destruct (not_nil_plain atts Hx Enil) as [Hlk Hplain].
+      destruct t as [st|c|aq iname el].
+      + (* a leaf element *)
+        apply andb_prop in Hdoc. destruct Hdoc as [Hdoc Hla]. apply andb_prop in Hdoc. destruct Hdoc as [Hdoc Hne].
+        apply andb_prop in Hdoc. destruct Hdoc as [Hk Hpl]. destruct kids; [|discriminate Hk].
+        rewrite (all_plain_filter atts Hplain) in Hpl. destruct atts; [|discriminate Hpl].
+        destruct Hty as [Hin Hw]. cbn [dty_ok] in Hw. cbn [type_qn].
+        rewrite (valid_elem_leaf pat olex U S Hres m' st nillable dflt ns name txt Hin Hw).
+        cbn [soft]. cbn [is_nil_att lookup_att]. apply H_LA; assumption.
+      + (* a class element *)
+        cbn [ty_known] in Hty. destruct (nth_error U c) as [cl|] eqn:Ec; [|apply nth_error_None in Ec; lia].
+        destruct (chain_fuel (Datatypes.S c) U c) as [L|] eqn:EL; [|discriminate Hdoc].
+        apply andb_prop in Hdoc. destruct Hdoc as [Hdoc H6]. apply andb_prop in Hdoc. destruct Hdoc as [Hdoc H5].
+        apply andb_prop in Hdoc. destruct Hdoc as [Hdoc H4]. apply andb_prop in Hdoc. destruct Hdoc as [Hdoc H3].
+        apply andb_prop in Hdoc. destruct Hdoc as [H1 H2].
+        cbn [type_qn].
+        apply (agree_class k m' c cl L nillable dflt ns name atts txt kids Hm' Ec EL); try assumption.
+        intros t' nil' d' e' Hty' Hd'. apply IHk; assumption.
+      + (* an array element *)
+        apply andb_prop in Hdoc. destruct Hdoc as [Hdoc Hkids]. apply andb_prop in Hdoc. destruct Hdoc as [Hpl Hws].
+        rewrite (all_plain_filter atts Hplain) in Hpl. destruct atts; [|discriminate Hpl].
+        destruct Hty as [Hin Hw]. cbn [dty_ok] in Hw. apply andb_prop in Hw. destruct Hw as [Hns Hwel]. apply negb_true_iff in Hns.
+        destruct (rs_arr S U Hres aq iname el Hin) as (d & D1 & D2 & D3). cbn [type_qn].
+        assert (Heff : eff_content m' S aq = Some ([(fst aq, PElem (edecl_of U iname el 0 PosInf true None))], [])).
+        { destruct m' as [|m'']; [lia|]. cbn [eff_content]. rewrite D1, D3. cbn [c_base c_seq c_atts map].
+          unfold local_ns. rewrite D2, (find_doc_tns S _ _ D1). reflexivity. }
+        refine (eq_trans (valid_elem_complex2 m' aq nillable dflt ns name [] txt kids _ _ eq_refl (resolve_complex S aq _ Hns D3) Heff) _).
+        rewrite Hws. cbn [attrs_ok forallb andb].
+        assert (Hel : ty_known U el).
+        { pose proof (tys_of_arr_el aq iname el Hin) as Hin'. destruct el as [st|c|? ? ?]; cbn [ty_known]; [split; assumption| |split; assumption].
+          cbn in Hwel. apply Nat.ltb_lt. exact Hwel. }
+        rewrite forallb_forall in Hkids.
+        assert (Helts : forallb is_elt kids = true).
+        { apply forallb_forall. intros c0 Hc0. specialize (Hkids c0 Hc0). apply andb_prop in Hkids. destruct Hkids as [He _]. destruct c0; [reflexivity|discriminate He]. }
+        rewrite (filter_all_elts kids Helts). cbn [match_seq]. change (e_name (edecl_of U iname el 0 PosInf true None)) with iname.
+        assert (Hrun : forallb (elt_is (fst aq) iname) kids = true).
+        { apply forallb_forall. intros c0 Hc0. specialize (Hkids c0 Hc0). apply andb_prop in Hkids. exact (proj1 Hkids). }
+        rewrite <- (app_nil_r kids) at 1. rewrite (span_name_app (fst aq) iname kids [] Hrun eq_refl).
+        unfold occ_ok. rewrite eff_min_edecl, eff_max_edecl. cbn [ext_leb andb].
+        assert (0 <=? len_nodes kids = true) as -> by (unfold len_nodes; lia). cbn [andb]. rewrite andb_true_r.
+        cbn [soft]. cbn [is_nil_att lookup_att]. rewrite is_ok_bind.
+        assert (Hmap : is_ok (mapM (soft U ord k el true) kids) = forallb (velem_m pat olex S m' (edecl_of U iname el 0 PosInf true None)) kids).
+        { rewrite is_ok_mapM. apply forallb_ext_in'. intros c0 Hc0. specialize (Hkids c0 Hc0). apply andb_prop in Hkids. destruct Hkids as [_ Hd0].
+          unfold velem_m. rewrite e_type_edecl, eff_nillable_edecl, e_default_edecl. symmetry. apply IHk; assumption. }
+        rewrite <- Hmap. destruct (mapM (soft U ord k el true) kids); reflexivity.
   Qed.
 
 End Agree.
